@@ -824,6 +824,18 @@ impl<C: MlsConfig, E: ExternalMlsConfig + Clone> World<C, E> {
                 self.msgs.insert(id, mls!(msg.to_bytes()));
                 Ok(json!({}))
             }
+            "ext_add" => {
+                // a non-member proposes its own addition (NewMemberProposal sender)
+                let gi = self.msg(op["gi"].as_str().unwrap_or(""))?;
+                let tree = match op["tree"].as_str() {
+                    Some(t) => Some(mls!(ExportedTree::from_bytes(self.trees.get(t).ok_or("no tree")?)).into_owned()),
+                    None => None,
+                };
+                let m = self.members.get_mut(&who).ok_or("no such member")?;
+                let msg = mls!(m.client.external_add_proposal(&gi, tree, aad, ExtensionList::new(), ExtensionList::new(), None));
+                self.msgs.insert(id, mls!(msg.to_bytes()));
+                Ok(json!({}))
+            }
             "save" => {
                 mls!(grp!().write_to_storage());
                 Ok(json!({}))
